@@ -22,8 +22,8 @@ DUMP_AFTER = {"mdadd": ("mddump", 1), "mdaddstr": ("mddump", 1), "mdaddint": ("m
 STATUS_OPS = set("obj objs ocopy va vaget mdnew mdadd mdaddstr mdaddint mdrm mdget mddflt mdcopy mdfreeze cmset cmname cmtype tmnew tmadd csnew csadd csget tsnew tsadd wfh wtm wts wend wcs wva wobj wobja wstr wi32 wi8 w7 wsec wvt rfh rtm rts skts rcs skcs rva skva robj robja skobj skobja rstr skstr ri32 ri8 r7 rsec rvt".split())
 
 
-def scenario(rng):
-    kind = rng.choice(["table", "table", "values", "metadata"])
+def scenario(rng, force=None):
+    kind = force[0] if force else rng.choice(["table", "table", "values", "metadata"])
     L = []
     if kind == "table":
         t = G.rand_table(rng, ncols=rng.choice([1, 2, 3]), nslices=rng.choice([1, 2]), maxrows=5)
@@ -34,6 +34,7 @@ def scenario(rng):
             L += ["rts 1 51 50 %s" % "".join(rng.choice("01") for _ in t["cols"]), "skts 1 50"]
     elif kind == "values":
         ty = rng.choice(ALLTYPES); n = rng.choice([0, 1, 3, 9, 300])
+        if force: ty, n = force[1], force[2]
         L += [obj_line(1, ty, rand_array(rng, ty, n)), "ocopy 2 1"]
         for j, k in enumerate([-2, -3, -4, -1]):
             L += ["va %d %d 1" % (j + 1, k), "vaget %d %d" % (j + 10, j + 1), "out %d" % (j + 1), "wva %d %d" % (j + 1, j + 1), "inw %d %d" % (j + 1, j + 1), "rva %d %d" % (j + 1, j + 20), "vaget %d %d" % (j + 30, j + 20)]
@@ -113,8 +114,10 @@ def cases(rng, tier):
         c.oracle = None           # with injected failures handles may be null: only the comparison with the ledger model counts
         yield c
     n = {"quick": 14, "thorough": 200, "search": 8}[tier]
+    from vlib import BINARY
+    forced = [("values", STRING, 3), ("values", BINARY, 9), ("values", BOOL, 9), ("values", 2, 3)]    # every element kind, several rows, each run
     for i in range(n):
-        S, kind = scenario(rng)
+        S, kind = scenario(rng, forced[i] if i < len(forced) else None)
         lines = ["allocs"] + S + ["allocs"]
         yield Case("s%d" % i, lines, compare=False, nontrivial=True, meta={"scenario": S, "dist": {"phase": 1, "kind": kind}})
 
